@@ -110,3 +110,80 @@ func sharesData(t types.Type) bool {
 	}
 	return false
 }
+
+// Copy facts.  The classification treats the commands, dependencies and preconditions of the
+// task handed to an activation as that activation's own ("runDeferred|‹‹*ast.Task›.Cmds[‹int›]›",
+// the DeepCopy bases).  That rests on compiledTask putting only FRESH copies into the compiled
+// task.  For every `append(‹compiled task›.F, x)` in compiledTask, with F a slice of pointers to
+// module structs, the table records (F, origin of x) — origins as in the access table: a local is
+// printed by the right-hand side of its definition, locals inside that by type.  Props.C18 pins
+// that every origin is a DeepCopy() result.
+func genCopyFacts(pkgs []*packages.Package) string {
+	seen := map[[2]string]bool{}
+	for _, p := range pkgs {
+		if shortPkg(p.PkgPath) != "task" {
+			continue
+		}
+		info := p.TypesInfo
+		for _, f := range p.Syntax {
+			if skipFile(p.Fset.Position(f.Pos()).Filename) {
+				continue
+			}
+			for _, d := range f.Decls {
+				fd, ok := d.(*ast.FuncDecl)
+				if !ok || fd.Body == nil || funcName(fd) != "Executor.compiledTask" {
+					continue
+				}
+				ast.Inspect(fd.Body, func(n ast.Node) bool {
+					c, ok := n.(*ast.CallExpr)
+					if !ok || len(c.Args) < 2 {
+						return true
+					}
+					if id, ok := c.Fun.(*ast.Ident); !ok || id.Name != "append" {
+						return true
+					}
+					se, ok := c.Args[0].(*ast.SelectorExpr)
+					if !ok {
+						return true
+					}
+					sel := info.Selections[se]
+					if sel == nil || sel.Kind() != types.FieldVal || namedStruct(sel.Recv()) != "taskfile/ast.Task" {
+						return true
+					}
+					sl, ok := sel.Obj().Type().Underlying().(*types.Slice)
+					if !ok {
+						return true
+					}
+					if pt, ok := sl.Elem().(*types.Pointer); !ok || namedStruct(pt.Elem()) == "" {
+						return true
+					}
+					for _, a := range c.Args[1:] {
+						seen[[2]string{se.Sel.Name, baseOrigin(info, fd, a)}] = true
+					}
+					return true
+				})
+			}
+		}
+	}
+	var keys [][2]string
+	for k := range seen {
+		keys = append(keys, k)
+	}
+	sort.Slice(keys, func(i, j int) bool {
+		if keys[i][0] != keys[j][0] {
+			return keys[i][0] < keys[j][0]
+		}
+		return keys[i][1] < keys[j][1]
+	})
+	var b strings.Builder
+	b.WriteString("\n/-- COPY FACTS: what `compiledTask` appends to the pointer slices of the compiled task: (field, origin of the element) -/\n")
+	b.WriteString("def compiledAppends : List (String × String) := [")
+	for i, k := range keys {
+		if i > 0 {
+			b.WriteString(",")
+		}
+		b.WriteString("\n  (" + q(k[0]) + ", " + q(k[1]) + ")")
+	}
+	b.WriteString("]\n")
+	return b.String()
+}
